@@ -641,6 +641,165 @@ def rule_r6(chk, p, t):
     r.guard(g.qualname, inv)
 
 
+# Vallado (4th ed.) sections 2-6 (perifocal construction), Danielson et al. 1995 sections 2.1.4 / 2.1.5 (equinoctial
+# elements <-> position and velocity) and the vector definitions of the classical angles, in the local names of the
+# implementation.
+_ORBIT_CONVERSIONS_REF = """
+def coe2eci(sma, ecc, inc, raan, argp, true_anom, mu):
+    cos_anom, sin_anom = cos(true_anom), sin(true_anom)
+    p = sma * (1.0 - ecc**2)
+    r_pqw = p / (1.0 + ecc * cos_anom) * array([cos_anom, sin_anom, 0.0])
+    v_pqw = sqrt(mu / p) * array([-sin_anom, ecc + cos_anom, 0.0])
+    rot_pqw2eci = rot3(-raan).dot(rot1(-inc).dot(rot3(-argp)))
+    return concatenate([rot_pqw2eci.dot(r_pqw), rot_pqw2eci.dot(v_pqw)], axis=0)
+
+
+def eci2eqe(eci_state, mu, retro):
+    II = 1 if not retro else -1
+    pos_vec, vel_vec = array(eci_state[:3], copy=True), array(eci_state[3:], copy=True)
+    sma = getSemiMajorAxis(norm(pos_vec), norm(vel_vec), mu=mu)
+    ang_momentum_vec = getAngularMomentum(pos_vec, vel_vec)
+    w_hat = ang_momentum_vec / norm(ang_momentum_vec)
+    p = w_hat[0] / (1 + II * w_hat[2])
+    q = -w_hat[1] / (1 + II * w_hat[2])
+    f_hat, g_hat = getEquinoctialBasisVectors(p, q, retro=retro)
+    ecc, ecc_vec = getEccentricity(pos_vec, vel_vec, mu=mu)
+    h = vdot(ecc * ecc_vec, g_hat)
+    k = vdot(ecc * ecc_vec, f_hat)
+    h_sq, k_sq = h**2, k**2
+    X = vdot(pos_vec, f_hat)
+    Y = vdot(pos_vec, g_hat)
+    b = 1 / (1 + sqrt(1 - h_sq - k_sq))
+    denom = sma * sqrt(1 - h_sq - k_sq)
+    F = arctan2(h + ((1 - h_sq * b) * Y - h * k * b * X) / denom, k + ((1 - k_sq * b) * X - h * k * b * Y) / denom)
+    mean_long = eccLong2MeanLong(F, h, k)
+    return sma, h, k, p, q, mean_long
+
+
+def eqe2eci(sma, h, k, p, q, mean_long, mu, retro):
+    h_sq, k_sq = h**2, k**2
+    n = getMeanMotion(sma, mu=mu)
+    b = 1 / (1 + sqrt(1 - h_sq - k_sq))
+    hkb = h * k * b
+    F = meanLong2EccLong(mean_long, h, k)
+    sinF, cosF = sin(F), cos(F)
+    r = sma * (1 - h * sinF - k * cosF)
+    vel_term = n * sma**2 / r
+    x = sma * ((1 - h_sq * b) * cosF + hkb * sinF - k)
+    y = sma * ((1 - k_sq * b) * sinF + hkb * cosF - h)
+    x_dot = vel_term * (hkb * cosF - (1 - h_sq * b) * sinF)
+    y_dot = vel_term * ((1 - k_sq * b) * cosF - hkb * sinF)
+    f_hat, g_hat = getEquinoctialBasisVectors(p, q, retro=retro)
+    return concatenate([x * f_hat + y * g_hat, x_dot * f_hat + y_dot * g_hat], axis=0)
+"""
+
+_ORBIT_UTILS_REF = """
+def getEquinoctialBasisVectors(p, q, retro):
+    II = 1 if not retro else -1
+    p_sq, q_sq = p**2, q**2
+    norm_term = 1 / (1 + p_sq + q_sq)
+    f_vec = norm_term * array([1 - p_sq + q_sq, 2 * p * q, -2 * II * p])
+    g_vec = norm_term * array([2 * II * p * q, (1 + p_sq - q_sq) * II, 2 * q])
+    return f_vec, g_vec
+
+
+def getAngularMomentumFromEQE(p, q, retro):
+    II = 1 if not retro else -1
+    p_sq, q_sq = p**2, q**2
+    return 1 / (1 + p_sq + q_sq) * array([2 * p, -2 * q, (1 - p_sq - q_sq) * II])
+
+
+def getAngularMomentum(r_vec, v_vec):
+    return cross(r_vec, v_vec)
+
+
+def getLineOfNodes(ang_momentum_vec):
+    return cross(array([0, 0, 1], dtype=float), ang_momentum_vec)
+
+
+def getEccentricity(r_vec, v_vec, mu):
+    r, v = norm(r_vec), norm(v_vec)
+    ecc_vector = ((v**2 - mu / r) * r_vec - vdot(r_vec, v_vec) * v_vec) / mu
+    ecc = norm(ecc_vector)
+    if not fpe_equals(ecc, 0.0):
+        return ecc, ecc_vector / ecc
+    return ecc, ecc_vector
+
+
+def getOrbitalEnergy(r, v, mu):
+    return 0.5 * v**2 - mu / r
+
+
+def getSemiMajorAxis(r, v, mu):
+    energy = getOrbitalEnergy(r, v, mu=mu)
+    return -0.5 * mu / energy
+
+
+def getPeriod(sma, mu):
+    return TWOPI / getMeanMotion(sma, mu=mu)
+
+
+def getMeanMotion(sma, mu):
+    return sqrt(mu / sma**3)
+
+
+def getSmaFromMeanMotion(mean_motion, mu):
+    return (mu / mean_motion**2) ** (1 / 3.0)
+
+
+def getTrueAnomaly(r_vec, v_vec, e_unit_vec):
+    anomaly = safeArccos(vdot(e_unit_vec, r_vec) / norm(r_vec))
+    return fixAngleQuadrant(anomaly, vdot(r_vec, v_vec))
+
+
+def getArgumentPerigee(e_unit_vec, n_unit_vec):
+    argp = safeArccos(vdot(n_unit_vec, e_unit_vec))
+    return fixAngleQuadrant(argp, e_unit_vec[2])
+
+
+def getRightAscension(n_unit_vec):
+    raan = safeArccos(n_unit_vec[0])
+    return fixAngleQuadrant(raan, n_unit_vec[1])
+
+
+def getTrueLongitudePeriapsis(e_unit_vec):
+    omega_true = safeArccos(e_unit_vec[0])
+    return fixAngleQuadrant(omega_true, e_unit_vec[1])
+
+
+def getArgumentLatitude(r_vec, n_unit_vec):
+    arg_lat = safeArccos(vdot(n_unit_vec, r_vec) / norm(r_vec))
+    return fixAngleQuadrant(arg_lat, r_vec[2])
+
+
+def getTrueLongitude(r_vec):
+    true_long = safeArccos(r_vec[0] / norm(r_vec))
+    return fixAngleQuadrant(true_long, r_vec[1])
+"""
+
+
+def rule_r7(chk, p, t):
+    r = chk.rule(
+        "C12.R7",
+        "Cartesian <-> classical / equinoctial: the cited constructions, definition by definition",
+        19,
+        "coe2eci is the perifocal construction (p = a (1 - e^2), r = p / (1 + e cos nu) (cos nu, sin nu, 0), v = sqrt(mu / p) "
+        "(-sin nu, e + cos nu, 0), rotated by R3(-Omega) R1(-i) R3(-omega)); eci2eqe / eqe2eci are Danielson 2.1.5 / "
+        "2.1.4 (p, q from the unit angular momentum with the retrograde factor, h = e.g, k = e.f, the eccentric longitude "
+        "from X, Y, b = 1 / (1 + sqrt(1 - h^2 - k^2)); position and velocity in the equinoctial frame with their signs and "
+        "the basis vectors f, g); the vector utilities (eccentricity vector, energy, semi-major axis, mean motion, the "
+        "basis vectors) and the six classical angles with the component that fixes their quadrant (r.v for the true "
+        "anomaly, e_z for the argument of perigee, n_y for the node, e_y, r_z, r_y for the longitudes) - every definition "
+        "compared with the reference transcription as a rational function over opaque atoms, guards included "
+        "(rsa/refdefs.py); a restructured computation is undecided, a deviating formula a violation",
+        "round-trip numerics; the singular-case selection (R1) and the angle wrapping (R3, R4, R6)",
+    )
+    from rules.C20 import _ref_rule
+
+    _ref_rule(r, p, _ORBIT_CONVERSIONS_REF, "resonaate.physics.orbits.conversions")
+    _ref_rule(r, p, _ORBIT_UTILS_REF, "resonaate.physics.orbits.utils")
+
+
 def run(chk, p, t):
     chk.explanation = (
         "Static decision of a narrow set of structural necessary conditions of C12: (R1) the four places that split "
@@ -652,7 +811,7 @@ def run(chk, p, t):
         "as numbers, Newton convergence of Kepler's equation."
     )
     chk.assumptions += ["isInclined / isEccentric are the single threshold helpers (tolerances in physics/orbits/__init__.py)"]
-    for fn in (rule_r1, rule_r2, rule_r3, rule_r4, rule_r5, rule_r6):
+    for fn in (rule_r1, rule_r2, rule_r3, rule_r4, rule_r5, rule_r6, rule_r7):
         rid = "C12.R" + fn.__name__[-1]
         if not chk.wants(rid):
             continue
